@@ -143,7 +143,7 @@ EXN = {1: "RequestedInvalidSector", 2: "InvalidFatDefinition", 3: "ConstructErro
        5: "BadReadSize", 6: "BadAlign", 7: "SectorReadError", 8: "AttemptToReadBeyondBuffer",
        9: "InvalidCharacter", 10: "KeyError", 11: "ValueError", 12: "BadCueSheet", 13: "error",
        14: "NoDataStream", 15: "IncompatibleNumberOfChannels", 16: "CouldNotDetermineName",
-       17: "ErrorInvalidPath", 18: "StructError", 19: "OverflowError"}
+       17: "ErrorInvalidPath", 18: "StructError", 19: "OverflowError", 20: "AssertionError"}
 
 
 def res(v):
